@@ -64,7 +64,23 @@ func genText(t *rapid.T) (string, string) {
 func genOp(t *rapid.T, focus []string) Op {
 	// weights: definitions dominate; the rest interleaves
 	k := rapid.SampledFrom([]string{"def", "def", "def", "def", "def", "def", "def", "def", "def", "def", "def",
-		"firstpage", "pagesize", "orient", "margins", "hfdist", "image", "list", "para", "reopen", "reopen", "reopen", "render", "render"}).Draw(t, "k")
+		"firstpage", "pagesize", "orient", "margins", "hfdist", "image", "list", "para", "reopen", "reopen", "reopen", "render", "render", "render2", "render2", "render2"}).Draw(t, "k")
+	return genOpOf(t, k, focus)
+}
+
+// genExt draws the calls one of two documents rendered from the same template receives afterwards: mostly definitions,
+// the kind drawn from all three (a kind the template does not define yet is as interesting here as a redefinition).
+func genExt(t *rapid.T) []Op {
+	n := rapid.IntRange(1, 3).Draw(t, "next")
+	var ops []Op
+	for i := 0; i < n; i++ {
+		k := rapid.SampledFrom([]string{"def", "def", "def", "def", "def", "def", "image", "list", "para", "firstpage", "margins"}).Draw(t, "xk")
+		ops = append(ops, genOpOf(t, k, kinds))
+	}
+	return ops
+}
+
+func genOpOf(t *rapid.T, k string, focus []string) Op {
 	switch k {
 	case "def":
 		o := Op{K: rapid.SampledFrom(defKinds).Draw(t, "entry")}
@@ -108,6 +124,9 @@ func genOp(t *rapid.T, focus []string) Op {
 		return Op{K: k, S: rapid.SampledFrom([]string{"bullet", "number"}).Draw(t, "lt")}
 	case "render":
 		return Op{K: k, B: rapid.Bool().Draw(t, "cont")}
+	case "render2":
+		return Op{K: k, Ord: rapid.SampledFrom([]string{"rrab", "rrab", "rarb", "alt"}).Draw(t, "ord"), Cont: rapid.IntRange(0, 2).Draw(t, "cont2"),
+			XA: genExt(t), XB: genExt(t)}
 	}
 	return Op{K: k}
 }
@@ -161,6 +180,10 @@ func fixedCases() []Case {
 		{Ops: []Op{{K: "hdr", Kind: "default", Text: "one", Cls: "ascii"}, {K: "ftrpn", Kind: "default", Text: "p", PN: true, Cls: "ascii"}, {K: "reopen"}, {K: "render", B: true}}},
 		{Start: &Start{Slots: []StartSlot{{Kind: "even", Part: "header1.xml", Text: "E"}, {Kind: "default", Part: "header2.xml", Text: "D"}, {Footer: true, Kind: "default", Part: "footer1.xml", Text: "F"}}},
 			Ops: []Op{{K: "para"}, {K: "reopen"}, {K: "render", B: true}, {K: "hdr", Kind: "first", Text: "new first", Cls: "ascii"}, {K: "reopen"}}},
+		// two documents rendered from one template, each given a further kind afterwards, then the template itself
+		{Ops: []Op{{K: "hdr", Kind: "default", Text: "H", Cls: "ascii"}, {K: "ftr", Kind: "default", Text: "F", Cls: "ascii"}, {K: "hdr", Kind: "first", Text: "C", Cls: "ascii"},
+			{K: "render2", Ord: "rrab", XA: []Op{{K: "hdr", Kind: "even", Text: "A even", Cls: "ascii"}}, XB: []Op{{K: "ftrpn", Kind: "even", Text: "B even", PN: true, Cls: "ascii"}}},
+			{K: "ftr", Kind: "first", Text: "T first", Cls: "ascii"}}},
 		{Ops: []Op{{K: "hdrfmt", Kind: "even", Text: "T", Cls: "ascii", Align: "center", Fmt: &Fmt{Bold: true, Size: 10, Color: "8e8e8e", Font: "Arial"}}, {K: "firstpage", B: true}, {K: "ftrfmt", Kind: "first", Text: "F", Cls: "ascii", Align: "right"}, {K: "reopen"}}},
 	}
 }
@@ -168,9 +191,9 @@ func fixedCases() []Case {
 func TestC11(t *testing.T) {
 	kit.Main(t, kit.Spec[Case]{
 		ID: "C11", Level: "exploration",
-		Rule: "history of 1-14 (thorough 1-24) calls: the six header/footer definition entry points (AddHeader, AddFooter, Add{Header,Footer}WithPageNumber, AddFormatted{Header,Footer}) x {default, first, even} with XML-expressible texts (ascii, unicode, XML metacharacters, edge/only white space, empty), formats (bold, italic, underline, strike, size, colour, font via FontFamily / FontName alias / both, highlight, nil format, nil config) and alignments, the kind drawn mostly from a 2-element focus set so that slots are redefined; interleaved with SetDifferentFirstPage, page-setting calls, images, list items, paragraphs, save->OpenFromMemory (continue on the reopened document) and a no-data LoadTemplateFromDocument+RenderTemplateToDocument (judged; continue on the result in half of the cases). One history in four starts from a document of another producer (written by the harness) that already defines 1-4 slots in parts named like Word names them (header1..n.xml in creation order) or like the library does, instead of document.New(). Reference model: slot (header|footer x kind) -> most recent definition (call, or the opened document's). The package is saved and judged with an independent zip/XML reader after every definition, open, reopen, render and at the end. non-trivial = >=2 definition calls and (some slot defined more than once, or a definition carried over a reopen/render); distinct = distinct sequence of (start layout, entry point, kind, page-number/format/empty flags, other op kinds)",
+		Rule: "history of 1-14 (thorough 1-24) calls: the six header/footer definition entry points (AddHeader, AddFooter, Add{Header,Footer}WithPageNumber, AddFormatted{Header,Footer}) x {default, first, even} with XML-expressible texts (ascii, unicode, XML metacharacters, edge/only white space, empty), formats (bold, italic, underline, strike, size, colour, font via FontFamily / FontName alias / both, highlight, nil format, nil config) and alignments, the kind drawn mostly from a 2-element focus set so that slots are redefined; interleaved with SetDifferentFirstPage, page-setting calls, images, list items, paragraphs, save->OpenFromMemory (continue on the reopened document) and a no-data LoadTemplateFromDocument+RenderTemplateToDocument (judged; continue on the result in half of the cases), and a render-twice step: one LoadTemplateFromDocument, two RenderTemplateToDocument calls, each rendered document then receives 1-3 further calls of its own (definitions over all kinds, image, list, paragraph, page settings; renders and extensions ordered A B xA xB / A xA B xB / alternating) and only then both are judged, each against the template's model plus its own calls; the history continues on the template or on either rendered document. Every document a render step leaves behind (template or rendered) is judged once more, against the model it had, at the end of the history. One history in four starts from a document of another producer (written by the harness) that already defines 1-4 slots in parts named like Word names them (header1..n.xml in creation order) or like the library does, instead of document.New(). Reference model: slot (header|footer x kind) -> most recent definition (call, or the opened document's). The package is saved and judged with an independent zip/XML reader after every definition, open, reopen, render and at the end. non-trivial = >=2 definition calls and (some slot defined more than once, or a definition carried over a reopen/render); distinct = distinct sequence of (start layout, entry point, kind, page-number/format/empty flags, other op kinds)",
 		Gen:  genCase, Run: run, Findings: findings, Fixed: fixedCases,
-		MustSee: map[string]float64{"repeat-kind": 0.4, "reopen": 0.3, "render": 0.15, "redefine-after-reopen-or-render": 0.1, "page-number": 0.3, "formatted": 0.3,
+		MustSee: map[string]float64{"repeat-kind": 0.4, "reopen": 0.3, "render": 0.15, "render-twice": 0.1, "render-twice:both-add-a-part,different": 0.03, "render-twice:both-define-a-new-kind": 0.02, "redefine-after-reopen-or-render": 0.1, "page-number": 0.3, "formatted": 0.3,
 			"all-three-kinds": 0.1, "definition-carried-over-reopen-or-render": 0.3, "foreign-start": 0.15, "foreign-start:word-part-names": 0.08, "text:xmlmeta": 0.2, "text:edgews": 0.2, "text:unicode": 0.2},
 		Assumptions: []string{
 			"texts are drawn from the XML-expressible classes without template syntax (identity of text is compared); colours are 6-digit hex as documented; sizes 1-72 pt",
